@@ -604,6 +604,50 @@ func init() {
 		},
 	})
 
+	// the two exported writers called directly (whatever XMLName says): MarshalDirect always
+	// writes a direct invitation, MarshalMediated always a mediated one
+	inviteGen := func(g *gen) muc.Invitation {
+		i := muc.Invitation{Continue: g.boolean(), JID: g.njid(), Password: g.opt(), Reason: g.opt(), Thread: g.opt()}
+		switch g.intn(3) {
+		case 1:
+			i.XMLName = xml.Name{Space: muc.NSConf, Local: "x"}
+		case 2:
+			i.XMLName = xml.Name{Space: muc.NSUser, Local: "x"}
+		}
+		return i
+	}
+	inviteCanon := func(v muc.Invitation) string {
+		return (&kv{}).s("ns", v.XMLName.Space).b("continue", v.Continue).j("jid", v.JID).s("password", v.Password).s("reason", v.Reason).s("thread", v.Thread).String()
+	}
+	register(spec[inviteDirect]{name: "muc.Invitation.MarshalDirect",
+		witnesses: []inviteDirect{{muc.Invitation{Reason: "r"}}},
+		gen:       func(g *gen) inviteDirect { return inviteDirect{inviteGen(g)} },
+		tr:        func(v *inviteDirect) xml.TokenReader { return v.Invitation.MarshalDirect() },
+		dec:       true,
+		canon:     func(v *inviteDirect) string { return inviteCanon(v.Invitation) },
+		norm: func(v inviteDirect) inviteDirect {
+			v.XMLName = xml.Name{Space: muc.NSConf, Local: "x"}
+			if !v.Continue {
+				v.Thread = ""
+			}
+			return v
+		},
+	})
+	register(spec[inviteMediated]{name: "muc.Invitation.MarshalMediated",
+		witnesses: []inviteMediated{{muc.Invitation{Reason: "r", XMLName: xml.Name{Space: muc.NSConf, Local: "x"}}}},
+		gen:       func(g *gen) inviteMediated { return inviteMediated{inviteGen(g)} },
+		tr:        func(v *inviteMediated) xml.TokenReader { return v.Invitation.MarshalMediated() },
+		dec:       true,
+		canon:     func(v *inviteMediated) string { return inviteCanon(v.Invitation) },
+		norm: func(v inviteMediated) inviteMediated {
+			v.XMLName = xml.Name{Space: muc.NSUser, Local: "x"}
+			if !v.Continue {
+				v.Thread = ""
+			}
+			return v
+		},
+	})
+
 	// ---- ad-hoc commands ---------------------------------------------------------------------
 	register(spec[commands.Command]{name: "commands.Command",
 		gen: func(g *gen) commands.Command {
@@ -867,4 +911,16 @@ func encToksShort(t []xml.Token) string {
 		}
 	}
 	return sb.String()
+}
+
+// inviteDirect / inviteMediated: muc.Invitation written through one of its two exported
+// writers called directly; decoding is the type's own UnmarshalXML.
+type inviteDirect struct{ muc.Invitation }
+type inviteMediated struct{ muc.Invitation }
+
+func (v *inviteDirect) UnmarshalXML(d *xml.Decoder, start xml.StartElement) error {
+	return v.Invitation.UnmarshalXML(d, start)
+}
+func (v *inviteMediated) UnmarshalXML(d *xml.Decoder, start xml.StartElement) error {
+	return v.Invitation.UnmarshalXML(d, start)
 }
